@@ -45,6 +45,10 @@ def make_server(oidc=True, jwt=False, user="diana", usage=None, keys=None, more_
     if usage in ("nogrant", "norefrule"):
         del gc["expires_in"]          # grants without a lifetime of their own (expires_at 0 = never)
     extra = {"authz": {"class": AuthzHandling, "kwargs": {"grant_config": gc}}}
+    if usage == "rmit":
+        # the documented housekeeping option: revoked tokens are dropped from their grant
+        extra["session_params"] = {"encrypter": {"kwargs": {"password": "3987654321abcdefghijklmnop...---", "salt": "abcdefghijklmnop", "iterations": 1}},
+                                   "remove_inactive_token": True}
     if pkce:
         extra["add_on"] = {"pkce": {"function": "idpyoidc.server.oauth2.add_on.pkce.add_support", "kwargs": {"essential": False}}}
     s = opbase.make_op(jwt_tokens=jwt, extra=extra, user=user, keys=keys, more_endpoints=more_endpoints)
